@@ -227,8 +227,8 @@ def run_check(chk, argv=None):
         status = EXIT_VIOLATION
     elif harness_errors or missing:
         status = EXIT_HARNESS
-    print("%s %s tier=%s paths=%d obligations: unsat=%d sat=%d unknown=%d feas_queries=%d validated=%d wall=%.1fs -> exit %d" % (
-        pid, chk.title, args.tier, total.paths, total.ob_unsat, total.ob_sat, total.ob_unknown, total.feas_queries,
+    print("%s %s tier=%s paths=%d obligations: unsat=%d sat=%d unknown=%d feas_queries=%d (unknown %d) validated=%d wall=%.1fs -> exit %d" % (
+        pid, chk.title, args.tier, total.paths, total.ob_unsat, total.ob_sat, total.ob_unknown, total.feas_queries, total.feas_unknown,
         n_validated, wall, status))
     return status
 
